@@ -19,4 +19,4 @@ unshare -m bash -c "
 grep -E '^(VIOLATION|SUMMARY|ENGINE|PATCH)' $A/out.txt | head -8
 grep -E 'signature' $A/out.txt | sort -u | head -6
 grep -E '^exit=' $A/out.txt
-rm -rf $A
+[ -n "$KEEP_ALT" ] && cp $A/out.txt /tmp/alt_last_out.txt; rm -rf $A
